@@ -77,6 +77,7 @@ CMD_OPTS = {
              "user", "clientuid", "org", "fid", "appid", "appver", "language"],
 }
 CMD_OPTS["acctinfo"] = CMD_OPTS["prof"]
+CMD_OPTS["tax1099"] = CMD_OPTS["prof"]      # (its handler never saves settings, so it is driven without --write)
 CMD_OPTS["stmtend"] = CMD_OPTS["prof"] + ["bankid", "checking", "savings", "moneymrkt", "creditline", "creditcard"]
 CMD_OPTS["stmt"] = CMD_OPTS["stmtend"] + ["brokerid", "investment"]
 BANKTYPES = ["CHECKING", "SAVINGS", "MONEYMRKT", "CREDITLINE"]
@@ -200,7 +201,8 @@ class OfxgetWorld:
                     out.append(out[ch.pick(label + ".dupof", len(out))])      # the same account twice
                     continue
                 ln = 1 + ch.geometric(label + ".idlen", 4, 21)      # ids up to 22 characters
-                aid = "".join(ACCT_ALPHA[ch.pick(label + ".ch", len(ACCT_ALPHA))] for _ in range(ln))
+                # (no leading "-": argparse would take it for an option and the run would end in a usage error)
+                aid = "".join(ACCT_ALPHA[ch.pick(label + ".ch", len(ACCT_ALPHA) - (1 if k == 0 else 0))] for k in range(ln))
                 if ln >= 3 and ch.flag(label + ".blank", 0.1):
                     k = 1 + ch.pick(label + ".blank.at", ln - 2)     # a formatted number: "0012 345678"
                     aid = aid[:k] + " " + aid[k + 1:]
@@ -876,7 +878,7 @@ def drive(world, tier):
         #  apply to a nickname without a section is not stated by the property)
         world.nick = NICK2 if (focus == "C18" and not world.user_default and ch.flag("run.other_nick", 0.2)) else NICK
         if focus == "C18":
-            cmd = ["stmt", "prof", "stmtend", "acctinfo"][ch.weighted("run.cmd", [6, 2, 1, 1])]
+            cmd = ["stmt", "prof", "stmtend", "acctinfo", "tax1099"][ch.weighted("run.cmd", [12, 4, 2, 2, 1])]
         else:
             cmd = ["stmt", "stmtend"][ch.weighted("run.cmd", [7, 3])]
         cli = {}
@@ -909,6 +911,22 @@ def drive(world, tier):
         if cmd == "acctinfo":
             world.acct_spec = draw_accounts(world)
             sim.log(f"server account list: {[(a['kind'], a.get('accttype'), a['acctid'], a['status']) for a in world.acct_spec]}")
+        # keep most runs productive: a run that lacks a prerequisite (no URL anywhere, unclosed elements with an
+        # OFXv2 version, no user, bank accounts without a bank id) fails before it does anything worth judging, so
+        # most of the time - not always - the command line supplies what is missing
+        eff, _ = world.resolve(cli)
+        if null(eff["url"]) and "url" not in cli and ch.flag("fix.url", 0.85):
+            cli["url"] = world.draw_value("url", "cli")
+        if eff["unclosedelements"] and eff["version"] >= 200 and ch.flag("fix.version", 0.8):
+            cli["version"] = [102, 103, 151, 160][ch.pick("fix.version.v", 4)]
+        if cmd != "prof" and null(eff["user"]) and ch.flag("fix.user", 0.85):
+            cli["user"] = world.draw_value("user", "cli")
+        if cmd in ("stmt", "stmtend") and not all_:
+            if null(eff["bankid"]) and any(not null(eff[k]) for k in ("checking", "savings", "moneymrkt", "creditline")) \
+                    and ch.flag("fix.bankid", 0.85):
+                cli["bankid"] = world.draw_value("bankid", "cli")
+            if cmd == "stmt" and null(eff["brokerid"]) and not null(eff["investment"]) and ch.flag("fix.brokerid", 0.85):
+                cli["brokerid"] = world.draw_value("brokerid", "cli")
         argv = [cmd, world.nick]
         for opt, v in cli.items():
             if opt in BOOLS:
@@ -939,6 +957,12 @@ def drive(world, tier):
                 if ch.flag("cli." + key, 0.2):
                     argv.append(flag)
                     extra[key] = val
+        if cmd == "tax1099":
+            write = False
+            for y in ["2019", "2020"][:1 + ch.pick("cli.tax.years", 2)]:
+                argv += ["-y", y]
+            if ch.flag("cli.tax.recid", 0.3):
+                argv += ["--recid", "R1"]
         if cmd != "prof":
             argv += ["--password", PASSWORD]
         if write:
@@ -997,6 +1021,13 @@ def run_world(ch, index, tier, focus):
     stats["probe.write_runs"] = sum(1 for r in w.runs if r.write and not r.dryrun)
     stats["probe.dry_runs"] = sum(1 for r in w.runs if r.dryrun)
     stats["probe.all_runs"] = sum(1 for r in w.runs if r.all)
+    for r in w.runs:
+        stats["probe.cmd." + r.cmd] = stats.get("probe.cmd." + r.cmd, 0) + 1
+        if r.ok is False:
+            k = "probe.fail." + (r.exc or "")[:70]
+            stats[k] = stats.get(k, 0) + 1
+        if r.ok and not r.dryrun:
+            stats["probe.cmd." + r.cmd + ".sent_ok"] = stats.get("probe.cmd." + r.cmd + ".sent_ok", 0) + 1
     stats["probe.real_fidb_mounted"] = int(w.use_real_fidb)
     for k, v in w.source_stats.items():
         stats["probe.option_resolved_from." + k] = v
